@@ -46,6 +46,11 @@ def TRefAt (W : World) (vid : Vid) (L : List Ev) (t : Name) (r : FieldRef) : Pro
   (∃ e root, r = .fcount e root ∧ t ∈ W.CT e ∧ Ev.fold e ∈ L ∧
       W.comp.folds.any (·.eid == e) = true)
 
+/-- How a tag name used in a post-filter of the fold `eid` (source vertex `vid`) is compiled: as at
+the source vertex, or the fold's own count. -/
+def TRefPost (W : World) (vid : Vid) (L : List Ev) (eid : Eid) (t : Name) (r : FieldRef) : Prop :=
+  TRefAt W vid L t r ∨ (∃ root, r = .fcount eid root ∧ t ∈ W.CT eid)
+
 def foldKeys (f : Fold) : List (Eid × Name) :=
   (f.fouts.map fun n => (f.eid, n)) ++ (f.component.outputs.map fun o => (f.eid, o.name)) ++
     nestedKeys f.component
@@ -79,7 +84,7 @@ structure FoldFacts (W : World) (miss : Bool) (n : Name) (params : Params) (fds 
   on : W.ON f.eid = outNames child
   fk : W.FK f.eid = foldKeys f
   fouts : f.fouts.Perm (countOutNames fds)
-  post : Forall2 (fun p flt => ArgOK W (TRefAt W vid L) p.1 p.2 flt) (countFilterPairs fds) f.post
+  post : Forall2 (fun p flt => ArgOK W (TRefPost W vid L f.eid) p.1 p.2 flt) (countFilterPairs fds) f.post
   /-- F-9 guard: a fold with post-filters is never evaluated in a missing scope -/
   guard : f.post = [] ∨ miss = false
   root : f.component.root = f.toVid
